@@ -622,7 +622,16 @@ func (m *klState) produce(op plan.Op, part int32) {
 
 func (m *klState) fetch(op plan.Op, part int32, nparts int32) {
 	s := m.s
-	iso := int8(op.D)
+	iso := int8(op.D & 1)
+	// D>>1: the per-partition byte limit (0: everything readable; 1: one
+	// batch; 2: a few batches) - a response may end anywhere in the log
+	pmax := []int32{1 << 20, 1, 200}[int(op.D>>1)%3]
+	if op.A >= 0 {
+		// session fetches span several partitions; only the first partition
+		// with data is guaranteed a batch larger than its limit, so a small
+		// limit would make omissions legitimate
+		pmax = 1 << 20
+	}
 	r := kmsg.NewPtrFetchRequest()
 	r.ReplicaID, r.MaxWaitMillis, r.MinBytes, r.MaxBytes, r.IsolationLevel = -1, 50, 1, 8<<20, iso
 	r.SessionID, r.SessionEpoch = 0, -1
@@ -673,7 +682,7 @@ func (m *klState) fetch(op plan.Op, part int32, nparts int32) {
 	t.Topic = m.topic
 	for _, q := range qs {
 		rp := kmsg.NewFetchRequestTopicPartition()
-		rp.Partition, rp.FetchOffset, rp.CurrentLeaderEpoch, rp.LogStartOffset, rp.PartitionMaxBytes = q, offs[q], -1, -1, 1<<20
+		rp.Partition, rp.FetchOffset, rp.CurrentLeaderEpoch, rp.LogStartOffset, rp.PartitionMaxBytes = q, offs[q], -1, -1, pmax
 		t.Partitions = append(t.Partitions, rp)
 	}
 	if len(t.Partitions) > 0 {
